@@ -44,6 +44,7 @@ def _ill_formed(x):
 
 # =============================================================== suite 0: programs
 class Programs:
+    RUNNER = 'run_case_approx'      # programs contain means: compared within 1e-9 relative (Value.cell_close)
     @staticmethod
     def random_op(rng, a, stats, force=None):
         """an operation applicable to the array whose input JSON is a"""
@@ -302,7 +303,9 @@ class Ctor:
             if form == 'dict_dims' and nd == 0: form = 'lists_dims'
             stats['ctor_form'][form] += 1; stats['ctor_bad'][str(bad)] += 1
             dims = list(a['dims']); labels = [list(l) for l in a['labels']]
-            if bad == 'shape_mismatch': labels[rng.randrange(nd)].append(99 if not isinstance(labels[0][0] if labels[0] else 0, str) else 'zz'); labels = [[x for x in l] for l in labels]
+            if bad == 'shape_mismatch':
+                j_ = rng.randrange(nd)
+                labels[j_].append('zz' if a['axdtype'][j_] == 'O' else 99)      # one label too many, of the axis' own kind
             elif bad == 'dup_names' and nd >= 2: dims[1] = dims[0]
             elif bad == 'dup_names': bad = None
             elif bad == 'empty_name': dims[rng.randrange(nd)] = ''
